@@ -19,6 +19,8 @@ Record hcase := {
   h_init : list nat;            (* initial ordered active set (VerifSetActive), [] = fresh machine *)
   h_obs : trace;                (* what the implementation did *)
   h_extra : list (list tev);    (* event sequences seen by additional tracers *)
+  h_open_ticks : list N;        (* queue ticks returned to handlers whose WhenQueue channel is
+                                   still open after the history (machine idle) *)
   h_interr : nat;               (* errors received on Machine.ErrInternal() *)
   h_rerun : N                   (* re-executions of the same case: 0 = all identical,
                                    1 = results/times differ, 2 = handler calls differ,
